@@ -2,12 +2,12 @@ ID = "C01"
 
 PROP = {
     "level": "exploration",
-    "rule": ("rapid-generated quota trees (1-4 fixed-window quotas, depth <=3, explicit max 1-5 / interval 1-5 s|min or allocation_percentage "
+    "rule": ("rapid-generated quota trees (1-4 fixed-window quotas, depth <=3, explicit max 1-5 / interval 1-5 of every unit the files accept (second, minute, hour, day, month; seconds in half of the quotas) or allocation_percentage "
              "children, optional group_by_header) loaded from YAML through the public engine API, one Limiter->429 flow per quota; histories of "
              "<=40 steps {advance by offsets around the window size, jump to a window end +-1ns/1ms, request(level, group)} on a harness-owned "
              "virtual clock, optionally ended by a burst of 2-12 concurrent requests at a frozen instant. Non-trivial: the history contains >=1 "
              "refusal and >=1 window restart, or a burst larger than the remaining capacity. distinct = canonical JSON of config+history. "
-             "Unit TestSeveralQuotasPerRequest: two independent quotas A, B (max 1-4, interval 1-5 s|min, optional group header) plus an optional quota no flow references, flows with one Limiter (h.com/a, h.com/b) "
+             "Unit TestSeveralQuotasPerRequest: two independent quotas A, B (max 1-4, interval 1-5 of every unit, optional group header) plus an optional quota no flow references, flows with one Limiter (h.com/a, h.com/b) "
              "and with two chained Limiters (h.com/ab, h.com/ba), histories of 4-40 {advance, jump to a window end of A or B, request(url, group)}; non-trivial: a history with a refusal and a request through two limiters"),
     "assumptions": [
         "one history in six with a grouped quota starts with two groups whose header values are related by the separator of the quota's state keys ('a' / 'a_b', 'a' / 'a_currentCount', ...): both are used, a window later the longer one is used up to its maximum while the shorter stays idle, a group never seen before shows up, and the longer one asks again",
@@ -18,6 +18,7 @@ PROP = {
         "in-memory shared state only (the Redis-backed state is in the absent `pro` build)",
         "spill-over and monthly renewal are excluded: they read time.Now() directly and cannot be driven by the virtual clock",
         "in the hierarchy unit every quota is referenced by a Limiter; the second unit adds a quota that no flow references (it only counts through its system flow and must refuse nothing) and requests that consult two quotas in a row (a request refused by the second Limiter has already been counted by the first, as in a parent/child chain)",
+        "the length of a window is interval x the gateway's own definition of the unit (ParseWindow: a day is 24 h, a month 30 days - the plain month unit, not the calendar-aligned monthly_renewal feature); the advances of a history are relative to the window (w-1s, w, w+1ms, 2w ...), so hours, days and months are crossed like seconds",
         "sequential exactness is judged against an independent counter model in two variants (window start kept with 1 s resolution, or exact); the whole history must agree with one of them",
     ],
     "units": [
